@@ -14,6 +14,7 @@ Open Scope list_scope.
 
 Inductive opoint : Set :=
 | OP_notification_mac   (* notification.go toNotification: Notification.Addr.MAC *)
+| OP_gethosts           (* hosttable.go Session.GetHosts: the returned slice itself (its elements are pointers shared by contract) *)
 | OP_findbymac_mac      (* hosttable.go Session.FindByMAC: Addr.MAC of every element *)
 | OP_ipaddrs_mac        (* session.go Session.IPAddrs: Addr.MAC of every element *)
 | OP_whois_mac          (* arp_spoofer arp.go Handler.WhoIs: Addr.MAC *)
@@ -28,6 +29,7 @@ Inductive opoint : Set :=
 Definition out_copies (k : opoint) : bool :=
   match k with
   | OP_notification_mac => true    (* addr.MAC = CopyMAC(addr.MAC) *)
+  | OP_gethosts => true            (* list = make([]*Host, 0, n): a fresh slice *)
   | OP_findbymac_mac => true       (* Addr{MAC: CopyMAC(v.MACEntry.MAC)} *)
   | OP_ipaddrs_mac => true         (* addr.MAC = CopyMAC(addr.MAC) *)
   | OP_whois_mac => true           (* Addr{MAC: CopyMAC(host.MACEntry.MAC)} (d9dd9af) *)
@@ -38,7 +40,7 @@ Definition out_copies (k : opoint) : bool :=
 
 (* the code as found, kept for the refutation theorem *)
 Definition out_copies_as_found (k : opoint) : bool :=
-  match k with OP_dns_entry => true | _ => false end.
+  match k with OP_dns_entry | OP_gethosts => true | _ => false end.
 
 Definition heap := list bytes.
 Inductive ov : Type := OCopy (b : bytes) | OShare (cell : nat).
